@@ -17,8 +17,12 @@ package main
 //	                             handler -> ConfigUpdate -> debounce -> Push pipeline has settled the real
 //	                             DiscoveryServer.Push runs once more for that key (real StartPush pair for `push`)
 //	toggle <cfg>                 the config is deleted from / re-created in the store (DR, VS, Sidecar, EnvoyFilter)
-//	epupdate <svc> <n>           real EndpointIndex.UpdateServiceEndpoints with one address changed and NO push:
-//	                             the window between an endpoint event and the push it triggers
+//	epupdate <svc> <n>           real DiscoveryServer.EDSUpdate with one address changed (index update, the real choice of
+//	                             the config kind, the real ConfigUpdate -> debounce -> Push)
+//	epcache <svc> <n>            real DiscoveryServer.EDSCacheUpdate (index only) and NO push yet: the window between an
+//	                             endpoint event and the full push the registry requests afterwards
+//	addrupdate <n>               an address of the ambient index becomes / stops being HBONE capable and the index
+//	                             reports it: real DiscoveryServer.ConfigUpdate with a key of kind Address
 //	push <id>                    real pushConnection / pushConnectionDelta with the request of the last `change`
 //	dump <id>                    real connectionConfigDump (body of /debug/config_dump?proxyID=)
 //	dumptypes <id>               real getConfigDumpByResourceType(con, nil, ...) (…&types=cds,rds,eds,sds)
@@ -35,6 +39,8 @@ import (
 	"os"
 	"sort"
 	"strconv"
+	"strings"
+	"sync"
 	"time"
 
 	clusterv3 "github.com/envoyproxy/go-control-plane/envoy/config/cluster/v3"
@@ -57,10 +63,120 @@ import (
 	"istio.io/istio/pkg/config/mesh/meshwatcher"
 	"istio.io/istio/pkg/config/schema/gvk"
 	"istio.io/istio/pkg/config/schema/kind"
-	"istio.io/istio/pkg/spiffe"
 	"istio.io/istio/pkg/util/sets"
+	"istio.io/istio/pkg/workloadapi"
 	"verifharness/internal/wire"
 )
+
+// recCache is a transparent wrapper around the server's shared XdsCache (server, generators and SecretGen all go
+// through it): it records the key sets the server's OWN pipeline hands to Clear (dropCacheForRequest: exactly the
+// ConfigsUpdated of the request the real handlers and the real debounce produced), its ClearAll calls, and the hits
+// and misses of Get per xDS type. Nothing is changed.
+type recCache struct {
+	model.XdsCache
+	mu        sync.Mutex
+	mute      bool // the harness's own follow-up Push is running
+	inAddr    bool // the synchronous ClearAll of ConfigUpdate(kind Address) is running
+	keys      sets.Set[model.ConfigKey]
+	forced    bool
+	addrClear int
+	hits      map[string]int
+	misses    map[string]int
+}
+
+func newRecCache(inner model.XdsCache) *recCache {
+	return &recCache{XdsCache: inner, keys: sets.New[model.ConfigKey](), hits: map[string]int{}, misses: map[string]int{}}
+}
+
+func (r *recCache) Clear(s sets.Set[model.ConfigKey]) {
+	r.XdsCache.Clear(s)
+	r.mu.Lock()
+	if !r.mute {
+		r.keys.Merge(s)
+	}
+	r.mu.Unlock()
+}
+
+func (r *recCache) ClearAll() {
+	r.XdsCache.ClearAll()
+	r.mu.Lock()
+	switch {
+	case r.inAddr:
+		r.addrClear++
+	case !r.mute:
+		r.forced = true
+	}
+	r.mu.Unlock()
+}
+
+func (r *recCache) Get(e model.XdsCacheEntry) *discovery.Resource {
+	res := r.XdsCache.Get(e)
+	r.mu.Lock()
+	if res != nil {
+		r.hits[e.Type()]++
+	} else {
+		r.misses[e.Type()]++
+	}
+	r.mu.Unlock()
+	return res
+}
+
+// take returns what the server's pipeline has invalidated since the last call.
+func (r *recCache) take() (keys sets.Set[model.ConfigKey], forced bool) {
+	r.mu.Lock()
+	defer r.mu.Unlock()
+	keys, forced = r.keys, r.forced
+	r.keys, r.forced = sets.New[model.ConfigKey](), false
+	return keys, forced
+}
+
+func (r *recCache) counts() (hits, misses map[string]int) {
+	r.mu.Lock()
+	defer r.mu.Unlock()
+	hits, misses = map[string]int{}, map[string]int{}
+	for k, v := range r.hits {
+		hits[k] = v
+	}
+	for k, v := range r.misses {
+		misses[k] = v
+	}
+	return hits, misses
+}
+
+// ambientStub is the ambient index of the world: model.NoopAmbientIndexes (what a server without ambient has) except
+// that the addresses in `hbone` are workloads that accept HBONE. Generation (endpoints.supportTunnel) asks it through
+// PushContext.SupportsTunnel - dynamically, not through the push context snapshot.
+type ambientStub struct {
+	model.NoopAmbientIndexes
+	mu    sync.Mutex
+	hbone map[string]bool
+}
+
+func (a *ambientStub) AddressInformation(addrs sets.String) ([]model.AddressInfo, sets.String) {
+	a.mu.Lock()
+	defer a.mu.Unlock()
+	var out []model.AddressInfo
+	for addr := range addrs {
+		if a.hbone[addr] {
+			out = append(out, model.AddressInfo{Address: &workloadapi.Address{Type: &workloadapi.Address_Workload{
+				Workload: &workloadapi.Workload{Uid: "verif/" + addr, TunnelProtocol: workloadapi.TunnelProtocol_HBONE},
+			}}})
+		}
+	}
+	return out, nil
+}
+
+func (a *ambientStub) toggle(addr string) {
+	a.mu.Lock()
+	defer a.mu.Unlock()
+	if a.hbone == nil {
+		a.hbone = map[string]bool{}
+	}
+	a.hbone[addr] = !a.hbone[addr]
+}
+
+// statistics for the evidence (stream writers, exec only): what the generated ops actually did
+var wstats = map[string]int{}
 
 type sinkBase struct{}
 
@@ -76,9 +192,27 @@ type sinkStream struct{ sinkBase }
 func (s *sinkStream) Send(*discovery.DiscoveryResponse) error    { return nil }
 func (s *sinkStream) Recv() (*discovery.DiscoveryRequest, error) { return nil, errors.New("eof") }
 
-type sinkDeltaStream struct{ sinkBase }
+type sinkDeltaStream struct {
+	sinkBase
+	mu   sync.Mutex
+	sent map[string]int // responses sent, per type URL
+}
 
-func (s *sinkDeltaStream) Send(*discovery.DeltaDiscoveryResponse) error { return nil }
+func (s *sinkDeltaStream) Send(r *discovery.DeltaDiscoveryResponse) error {
+	s.mu.Lock()
+	if s.sent == nil {
+		s.sent = map[string]int{}
+	}
+	s.sent[r.TypeUrl]++
+	s.mu.Unlock()
+	return nil
+}
+
+func (s *sinkDeltaStream) count(typeURL string) int {
+	s.mu.Lock()
+	defer s.mu.Unlock()
+	return s.sent[typeURL]
+}
 func (s *sinkDeltaStream) Recv() (*discovery.DeltaDiscoveryRequest, error) {
 	return nil, errors.New("eof")
 }
@@ -93,6 +227,7 @@ type wconn struct {
 	p     *model.Proxy
 	con   *pxds.Connection
 	delta bool
+	dsink *sinkDeltaStream
 	subs  map[string]int // delta: how many names of a type are subscribed
 
 	pending *model.PushRequest // what the push queue holds for this connection
@@ -100,15 +235,13 @@ type wconn struct {
 
 type writersWorld struct {
 	*keysWorld
-	conns          map[string]*wconn
-	deleted        map[string]config.Config // configs currently removed by `toggle`
-	pendingForced  bool
-	forcedUnpushed bool
-	pendingEp      []model.ConfigKey     // endpoint ops whose ConfigUpdate (DiscoveryServer.EDSUpdate's second half) is still to come
-	unpushed       []model.ConfigKey     // changes accepted by the server whose push requests the connections have not got yet
-	savedEps       map[string]savedShard // endpoint ops: the shard key and endpoints a service had when first touched
-	meshN          int
-	nreader        int
+	conns         map[string]*wconn
+	deleted       map[string]config.Config // configs currently removed by `toggle`
+	pendingForced bool
+	pendingEp     []model.ConfigKey     // EDSCacheUpdate ops whose registry ConfigUpdate (a full push for the service) is still to come
+	savedEps      map[string]savedShard // endpoint ops: the shard key and endpoints a service had when first touched
+	meshN         int
+	nreader       int
 }
 
 func newWritersWorld(variant int) *writersWorld {
@@ -141,9 +274,14 @@ var cfgHome = map[string]struct {
 	"dr-a": {gvk.DestinationRule, "default"}, "dr-b": {gvk.DestinationRule, "ns-b"}, "dr-a-nsb": {gvk.DestinationRule, "ns-b"},
 	"dr-sel": {gvk.DestinationRule, "default"}, "dr-dns": {gvk.DestinationRule, "default"},
 	"dr-hash": {gvk.DestinationRule, "default"}, "dr-tls": {gvk.DestinationRule, "default"}, "dr-new": {gvk.DestinationRule, "default"},
-	"vs-new": {gvk.VirtualService, "default"}, "ef-new": {gvk.EnvoyFilter, "default"},
+	"dr-a-sel": {gvk.DestinationRule, "default"},
+	"vs-new":   {gvk.VirtualService, "default"}, "ef-new": {gvk.EnvoyFilter, "default"}, "vs-new-b": {gvk.VirtualService, "default"},
+	"se-new": {gvk.ServiceEntry, "default"}, "pa-new": {gvk.PeerAuthentication, "default"}, "sc-new": {gvk.Sidecar, "default"},
+	"pa-sel": {gvk.PeerAuthentication, "default"}, "sc-paview": {gvk.Sidecar, "default"},
 	"vs-a": {gvk.VirtualService, "default"}, "vs-b": {gvk.VirtualService, "ns-b"}, "vs-c-src": {gvk.VirtualService, "default"},
-	"sc-b": {gvk.Sidecar, "ns-b"}, "sc-reg": {gvk.Sidecar, "default"}, "sc-labelled": {gvk.Sidecar, "default"},
+	"vs-hb-srcns": {gvk.VirtualService, "istio-system"},
+	"sc-b":        {gvk.Sidecar, "ns-b"}, "sc-reg": {gvk.Sidecar, "default"}, "sc-labelled": {gvk.Sidecar, "default"},
+	"sc-egress": {gvk.Sidecar, "default"}, "sc-any": {gvk.Sidecar, "default"},
 	"ef-labels": {gvk.EnvoyFilter, "default"}, "ef-version": {gvk.EnvoyFilter, "istio-system"},
 	"se-a": {gvk.ServiceEntry, "default"}, "se-b": {gvk.ServiceEntry, "ns-b"}, "se-c": {gvk.ServiceEntry, "default"},
 	"se-dns":     {gvk.ServiceEntry, "default"},
@@ -180,6 +318,48 @@ spec:
     patch:
       operation: MERGE
       value: {connect_timeout: 13s}
+---
+apiVersion: networking.istio.io/v1
+kind: ServiceEntry
+metadata: {name: se-new, namespace: default}
+spec:
+  hosts: [new.example.com]
+  ports:
+  - {number: 80, name: http, protocol: HTTP}
+  resolution: STATIC
+  location: MESH_INTERNAL
+  endpoints:
+  - {address: 10.7.0.1, locality: region1/zone1/sub1, network: net1}
+  - {address: 10.7.1.1, locality: region2/zone1/sub1, network: net2}
+---
+apiVersion: security.istio.io/v1
+kind: PeerAuthentication
+metadata: {name: pa-new, namespace: default}
+spec:
+  mtls: {mode: DISABLE}
+---
+apiVersion: security.istio.io/v1
+kind: PeerAuthentication
+metadata: {name: pa-sel, namespace: default}
+spec:
+  selector: {matchLabels: {app: a, version: v1}}
+  mtls: {mode: DISABLE}
+---
+apiVersion: networking.istio.io/v1
+kind: Sidecar
+metadata: {name: sc-new, namespace: default}
+spec:
+  egress:
+  - hosts: ["./*", "ns-b/*"]
+---
+apiVersion: networking.istio.io/v1
+kind: VirtualService
+metadata: {name: vs-new-b, namespace: default}
+spec:
+  hosts: [b.example.com]
+  http:
+  - route: [{destination: {host: b.example.com}}]
+    timeout: 8s
 `
 
 func templateFor(name string) (config.Config, bool) {
@@ -336,8 +516,13 @@ func (w *writersWorld) changeConfig(which string, n int) (model.ConfigKey, bool)
 	case *networking.EnvoyFilter:
 		for _, p := range spec.ConfigPatches {
 			if p.Patch != nil && p.Patch.Value != nil {
-				if _, ok := p.Patch.Value.Fields["connect_timeout"]; ok {
+				if _, ok := p.Patch.Value.Fields["connect_timeout"]; ok { // CLUSTER patch
 					p.Patch.Value.Fields["connect_timeout"] = structpb.NewStringValue(fmt.Sprintf("%ds", 20+n%30))
+				}
+				if r := p.Patch.Value.Fields["route"].GetStructValue(); r != nil { // HTTP_ROUTE patch
+					if _, ok := r.Fields["timeout"]; ok {
+						r.Fields["timeout"] = structpb.NewStringValue(fmt.Sprintf("%ds", 30+n%30))
+					}
 				}
 			}
 		}
@@ -393,11 +578,11 @@ func (w *writersWorld) toggleConfig(which string) (model.ConfigKey, bool) {
 
 // settle waits until the server's own (asynchronous) handler/debounce/push pipeline has seen the event and has
 // published it, and stays quiet - otherwise its push would race with the following ops.
-func (w *writersWorld) settle(before int64, key model.ConfigKey) {
+func (w *writersWorld) settle(before int64) {
 	w.waitQuiet(before)
 	// The change has now been invalidated and published by the server's OWN pipeline only (ConfigsUpdated as computed by
-	// the real handlers and merged by the real debounce): a `check` right after this op validates exactly that.
-	w.unpushed = append(w.unpushed, key)
+	// the real handlers and merged by the real debounce): a `check` right after this op validates exactly that. What the
+	// pipeline handed to Clear / ClearAll is remembered by the recording cache wrapper (flushPushes).
 }
 
 func (w *writersWorld) waitQuiet(before int64) {
@@ -420,8 +605,10 @@ func (w *writersWorld) waitQuiet(before int64) {
 	}
 }
 
-// flushEp issues the ConfigUpdate the registries send after an endpoint index update (as DiscoveryServer.EDSUpdate does)
-// for every endpoint op since the last call, through the real ConfigUpdate -> debounce -> Push, and waits for it.
+// flushEp issues the ConfigUpdate a registry sends after it has updated the endpoint index through EDSCacheUpdate /
+// SvcUpdate (a full push for the service: a ServiceEntry-kind key, as the ServiceEntry and Kubernetes controllers do), or
+// after a cluster was removed (kube multicluster: a Forced request), through the real ConfigUpdate -> debounce -> Push,
+// and waits for it.
 func (w *writersWorld) flushEp() {
 	if len(w.pendingEp) == 0 && !w.pendingForced {
 		return
@@ -433,12 +620,10 @@ func (w *writersWorld) flushEp() {
 		w.pendingForced = false
 		w.s.Discovery.ConfigUpdate(&model.PushRequest{Reason: model.NewReasonStats(model.ClusterUpdate), Forced: true})
 		w.waitQuiet(before)
-		w.forcedUnpushed = true
 		return
 	}
-	w.s.Discovery.ConfigUpdate(&model.PushRequest{ConfigsUpdated: sets.New(keys...), Reason: model.NewReasonStats(model.EndpointUpdate)})
+	w.s.Discovery.ConfigUpdate(&model.PushRequest{ConfigsUpdated: sets.New(keys...), Reason: model.NewReasonStats(model.ServiceUpdate)})
 	w.waitQuiet(before)
-	w.unpushed = append(w.unpushed, keys...)
 }
 
 // flushPushes gives the connections the push requests for the changes accepted since the last call: the real Push runs
@@ -446,16 +631,21 @@ func (w *writersWorld) flushEp() {
 // client list and cannot be observed), and the request is merged into what is pending for every connection (real
 // PushRequest.CopyMerge, as PushQueue.Enqueue does).
 func (w *writersWorld) flushPushes() {
-	if len(w.unpushed) == 0 && !w.forcedUnpushed {
+	keys, forced := w.rec.take() // ConfigsUpdated / Forced of the server's own requests, as dropCacheForRequest saw them
+	if len(keys) == 0 && !forced {
 		return
 	}
-	req := &model.PushRequest{ConfigsUpdated: sets.New(w.unpushed...), Reason: model.NewReasonStats(model.ConfigUpdate), Forced: w.forcedUnpushed}
-	w.unpushed, w.forcedUnpushed = nil, false
-	w.pushReq(req)
+	w.pushReq(&model.PushRequest{ConfigsUpdated: keys, Reason: model.NewReasonStats(model.ConfigUpdate), Forced: forced})
 }
 
 func (w *writersWorld) pushReq(req *model.PushRequest) {
+	w.rec.mu.Lock()
+	w.rec.mute = true
+	w.rec.mu.Unlock()
 	w.s.Discovery.Push(req) // real initPushContext (new context, dropCacheForRequest, publish) + StartPush (stamps Start)
+	w.rec.mu.Lock()
+	w.rec.mute = false
+	w.rec.mu.Unlock()
 	for _, c := range w.conns {
 		c.pending = c.pending.CopyMerge(req)
 	}
@@ -499,31 +689,29 @@ func (w *writersWorld) shardOf(svc string) (hn [2]string, sh savedShard, ok bool
 	return hn, sh, true
 }
 
-// epOp calls the real EndpointIndex entry points the registries use, with NO push afterwards (the window between an
-// endpoint event and the push it triggers; only the index's own cache invalidation protects it):
+// epOp calls the real entry points of DiscoveryServer the registries use (model.XDSUpdater):
 //
-//	epupdate <svc> <n>  UpdateServiceEndpoints with one address changed; n%4==0: with NO endpoints (-> DeleteServiceShard
-//	                    preserving the keys -> deleteServiceInner)
-//	epdelete <svc>      DeleteServiceShard(.., preserveKeys=false) (service deleted)
-//	epnew <svc> <n>     UpdateServiceEndpoints after a delete: GetOrCreateEndpointShard creates the shards again
-//	epdelshard <svc>    DeleteShard(shard key): a whole registry/cluster goes away (ClearAll)
+//	epupdate <svc> <n>  EDSUpdate with one address changed; n%4==0: with NO endpoints (-> DeleteServiceShard preserving
+//	                    the keys -> deleteServiceInner). Index update, kind choice and ConfigUpdate are all the real code.
+//	epnew <svc> <n>     EDSUpdate after a delete: GetOrCreateEndpointShard creates the shards again
+//	epcache <svc> <n>   EDSCacheUpdate (index only); the registry's full push for the service follows LATER (flushEp), so a
+//	                    `check` in between sees the window that only the index's own cache invalidation protects
+//	epdelete <svc>      SvcUpdate(EventDelete) (service deleted: DeleteServiceShard(.., preserveKeys=false)); full push later
+//	epprune <svc>       PruneShard (kube controller resync); Forced request later
+//	epdelshard <svc>    RemoveShard (a whole registry/cluster goes away: DeleteShard -> ClearAll); Forced request later
 func (w *writersWorld) epOp(op, svc string, n int) {
 	hn, sh, ok := w.shardOf(svc)
 	if !ok {
 		return
 	}
-	idx := w.s.Discovery.Env.EndpointIndex
-	// the registry's ConfigUpdate for this service follows the index update; the harness delays it to the next
-	// config-changing or push op (flushEp), so that a `check` in between sees the window. As DiscoveryServer.EDSUpdate:
-	// kind Endpoints for an incremental push, kind ServiceEntry for a full push; the ServiceEntry controller adds a
-	// ServiceEntry-kind update for DNS-resolution services (their endpoints are inline in the CDS cluster).
-	note := func(pt model.PushType) {
-		switch {
-		case pt == model.FullPush || svc == "dns":
-			w.pendingEp = append(w.pendingEp, model.ConfigKey{Kind: kind.ServiceEntry, Name: hn[0], Namespace: hn[1]})
-		case pt == model.IncrementalPush:
-			w.pendingEp = append(w.pendingEp, model.ConfigKey{Kind: kind.Endpoints, Name: hn[0], Namespace: hn[1]})
-		}
+	ds := w.s.Discovery
+	// the endpoints of a DNS-resolution service are inline in its CDS cluster: its registry never sends an
+	// Endpoints-kind (incremental) update for it, only full pushes
+	if svc == "dns" && (op == "epupdate" || op == "epnew") {
+		op = "epcache"
+	}
+	later := func() {
+		w.pendingEp = append(w.pendingEp, model.ConfigKey{Kind: kind.ServiceEntry, Name: hn[0], Namespace: hn[1]})
 	}
 	fresh := func() []*model.IstioEndpoint {
 		var eps []*model.IstioEndpoint
@@ -533,28 +721,56 @@ func (w *writersWorld) epOp(op, svc string, n int) {
 		eps[0].Addresses = []string{fmt.Sprintf("10.251.%d.%d", (n/200)%200, 1+n%200)}
 		return eps
 	}
+	wstats["ep/"+op+"/"+svc]++
 	switch op {
-	case "epupdate":
-		if n%4 == 0 {
-			note(idx.UpdateServiceEndpoints(sh.key, hn[0], hn[1], nil, false))
+	case "epupdate", "epnew":
+		w.flushEp()
+		before := ds.InboundUpdates.Load()
+		if op == "epupdate" && n%4 == 0 {
+			ds.EDSUpdate(sh.key, hn[0], hn[1], nil)
 		} else {
-			note(idx.UpdateServiceEndpoints(sh.key, hn[0], hn[1], fresh(), false))
+			ds.EDSUpdate(sh.key, hn[0], hn[1], fresh())
 		}
-	case "epdelete": // SvcUpdate(EventDelete): the service is gone, a full push follows
-		idx.DeleteServiceShard(sh.key, hn[0], hn[1], false)
-		note(model.FullPush)
-	case "epnew":
-		note(idx.UpdateServiceEndpoints(sh.key, hn[0], hn[1], fresh(), false))
-	case "epprune": // kube controller resync: PruneShard keeps only the listed services of the shard
-		idx.PruneShard(sh.key, map[string]sets.String{})
+		if ds.InboundUpdates.Load() != before {
+			w.settle(before)
+		}
+	case "epcache":
+		ds.EDSCacheUpdate(sh.key, hn[0], hn[1], fresh())
+		later()
+	case "epdelete":
+		ds.SvcUpdate(sh.key, hn[0], hn[1], model.EventDelete)
+		later()
+	case "epprune":
+		ds.PruneShard(sh.key, map[string]sets.String{})
 		w.pendingForced = true
-		note(model.FullPush)
 	case "epdelshard":
-		// a registry (cluster) is removed: kube multicluster calls DeleteShard and then a FORCED ConfigUpdate
-		idx.DeleteShard(sh.key)
+		ds.RemoveShard(sh.key)
 		w.pendingForced = true
-		note(model.FullPush)
 	}
+}
+
+// addresses of the ambient index the `addrupdate` op toggles (endpoints of a.example.com, b.example.com, hb.example.com)
+var addrTargets = []string{"net1/10.0.0.2", "net1/10.1.0.2", "net1/10.4.0.2", "net1/10.0.0.1", "net2/10.0.1.2"}
+
+// addrUpdate: a workload of the ambient index becomes (or stops being) HBONE capable, and the index reports it the way
+// ambient.Index does: XDSUpdater.ConfigUpdate with a key of kind Address. Address information is looked up dynamically
+// during generation (not through the push context snapshot), no cache entry declares it, no key carries it: the real
+// DiscoveryServer.ConfigUpdate must invalidate for it.
+func (w *writersWorld) addrUpdate(n int) {
+	addr := addrTargets[n%len(addrTargets)]
+	w.ambient.toggle(addr)
+	before := w.s.Discovery.InboundUpdates.Load()
+	w.rec.mu.Lock()
+	w.rec.inAddr = true
+	w.rec.mu.Unlock()
+	w.s.Discovery.ConfigUpdate(&model.PushRequest{
+		ConfigsUpdated: sets.New(model.ConfigKey{Kind: kind.Address, Name: addr}),
+		Reason:         model.NewReasonStats(model.AmbientUpdate),
+	})
+	w.rec.mu.Lock()
+	w.rec.inAddr = false
+	w.rec.mu.Unlock()
+	w.settle(before)
 }
 
 // meshChange: the mesh config changes (connect timeout of every cluster) together with a DestinationRule, and the
@@ -587,17 +803,18 @@ func (w *writersWorld) meshChange(n int, alone bool) {
 		w.pushReq(forced)
 		return
 	}
-	w.settle(before, key)
-	w.unpushed = w.unpushed[:len(w.unpushed)-1]
-	w.pushReq(forced.CopyMerge(&model.PushRequest{ConfigsUpdated: sets.New(key), Reason: model.NewReasonStats(model.ConfigUpdate)}))
+	w.settle(before)
+	keys, _ := w.rec.take()
+	keys.Insert(key)
+	w.pushReq(forced.CopyMerge(&model.PushRequest{ConfigsUpdated: keys, Reason: model.NewReasonStats(model.ConfigUpdate)}))
 }
 
 // reader builds a proxy that is about to be served for the first time, the way the server does (real initConnection
 // when the hook has it), so that it computes the same keys as the connections' writers.
 func (w *writersWorld) reader(a pattrs, id string) *model.Proxy {
 	if extAvailable {
-		if _, p, err := extConnect(w.s.Discovery, nodeOf(a, id), false); err == nil {
-			p.VerifiedIdentity = &spiffe.Identity{TrustDomain: "cluster.local", Namespace: a.ns, ServiceAccount: "sa-client"}
+		if _, p, err := extConnect(w.s.Discovery, nodeOf(a, id), false, &sinkDeltaStream{}); err == nil {
+			p.VerifiedIdentity = identityOf(a)
 			return p
 		}
 	}
@@ -613,11 +830,12 @@ func (w *writersWorld) apply(f []string) string {
 		c := &wconn{attrs: a, delta: len(f) == 4 && f[3] == "delta" && extAvailable, subs: map[string]int{}}
 		if extAvailable {
 			// the REAL initConnection: initProxyMetadata from the xDS Node, LastPushContext, addCon, initializeProxy
-			con, p, err := extConnect(s.Discovery, nodeOf(a, f[1]), c.delta)
+			c.dsink = &sinkDeltaStream{}
+			con, p, err := extConnect(s.Discovery, nodeOf(a, f[1]), c.delta, c.dsink)
 			if err != nil {
 				return "err"
 			}
-			p.VerifiedIdentity = &spiffe.Identity{TrustDomain: "cluster.local", Namespace: a.ns, ServiceAccount: "sa-client"}
+			p.VerifiedIdentity = identityOf(a)
 			c.con, c.p = con, p
 		} else {
 			p := w.proxy(a, f[1])
@@ -654,10 +872,14 @@ func (w *writersWorld) apply(f []string) string {
 				req.ResourceNamesSubscribe = names[k : k+n]
 				c.subs[f[2]] = k + n
 			}
+			edsBefore := c.dsink.count(v3.EndpointType)
 			err = extProcessDelta(s.Discovery, req, c.con)
+			if f[2] == "cds" && c.dsink.count(v3.EndpointType) > edsBefore {
+				wstats["delta-cds-request-with-forceEDSPush"]++ // an EDS response to a CDS request: DiscoveryServer.forceEDSPush ran
+			}
 			if os.Getenv("C06_DEBUG") != "" {
 				var names []string
-				for _, e := range model.VerifC06Snapshot(s.Discovery.Cache, model.RDSType).Store {
+				for _, e := range model.VerifC06Snapshot(w.rec.XdsCache, model.RDSType).Store {
 					if e.Value != nil {
 						names = append(names, fmt.Sprintf("%s@%d", e.Value.Name, e.Token%1000000000))
 					}
@@ -676,22 +898,43 @@ func (w *writersWorld) apply(f []string) string {
 		w.flushEp()
 		n, _ := strconv.Atoi(f[2])
 		before := s.Discovery.InboundUpdates.Load()
-		key, ok := w.changeConfig(f[1], n)
+		_, ok := w.changeConfig(f[1], n)
 		if !ok {
+			wstats["change-absent/"+f[1]]++
 			return "ok" // the world variant dropped this config
 		}
-		w.settle(before, key)
+		wstats["change/"+f[1]]++
+		w.settle(before)
 		return "ok"
 	case f[0] == "toggle" && len(f) == 2:
 		w.flushEp()
 		before := s.Discovery.InboundUpdates.Load()
-		key, ok := w.toggleConfig(f[1])
+		_, gone := w.deleted[f[1]]
+		present := gone
+		if home, known := cfgHome[f[1]]; known && !gone {
+			present = s.Store().Get(home.gvk, cfgName(f[1]), home.ns) != nil
+		}
+		_, ok := w.toggleConfig(f[1])
 		if !ok {
 			return "ok"
 		}
-		w.settle(before, key)
+		switch {
+		case gone:
+			wstats["toggle-recreate/"+f[1]]++
+		case present:
+			wstats["toggle-delete/"+f[1]]++
+		default:
+			wstats["toggle-create/"+f[1]]++
+		}
+		w.settle(before)
 		return "ok"
-	case (f[0] == "epupdate" || f[0] == "epnew") && len(f) == 3:
+	case f[0] == "addrupdate" && len(f) == 2:
+		w.flushEp()
+		n, _ := strconv.Atoi(f[1])
+		w.addrUpdate(n)
+		wstats["addrupdate"]++
+		return "ok"
+	case (f[0] == "epupdate" || f[0] == "epnew" || f[0] == "epcache") && len(f) == 3:
 		n, _ := strconv.Atoi(f[2])
 		w.epOp(f[0], f[1], n)
 		return "ok"
@@ -783,19 +1026,39 @@ func (w *writersWorld) apply(f []string) string {
 		// Both generations must see ONE snapshot: if the server's asynchronous pipeline publishes a new push context
 		// (a late event of an earlier change) while they run, wait for it to settle and compare again.
 		var warm, cold map[string]proto.Message
+		var h0, h1, m1 map[string]int
 		for try := 0; try < 6; try++ {
 			ctx0, in0 := s.PushContext(), s.Discovery.InboundUpdates.Load()
 			reader = w.reader(c.attrs, fmt.Sprintf("reader%d-%d", w.nreader, try))
+			h0, _ = w.rec.counts()
 			warm = w.generateWith(w.gens, reader)
+			h1, m1 = w.rec.counts()
 			cold = w.generateWith(w.twins, reader)
 			if s.PushContext() == ctx0 && s.Discovery.InboundUpdates.Load() == in0 && s.Discovery.CommittedUpdates.Load() >= in0 {
 				break
 			}
 			w.waitQuiet(in0 - 1)
 		}
+		// a check whose reads are all cache misses validates nothing about the cache: count what was SERVED from it
+		_ = m1
+		total := 0
+		for _, t := range typeOrder {
+			d := h1[t] - h0[t]
+			wstats["check-answers-served-from-cache/"+t] += d
+			total += d
+		}
+		wstats["check"]++
+		if total > 0 {
+			wstats["check-with-cache-hits"]++
+		} else {
+			wstats["check-all-misses"]++
+		}
+		if os.Getenv("C06_DEBUG") == "addr" {
+			fmt.Fprintln(os.Stderr, "EDS a:", cold["eds/outbound|80||a.example.com"])
+		}
 		if os.Getenv("C06_DEBUG") != "" {
 			n := "cds/outbound|80||a.example.com"
-			fmt.Fprintln(os.Stderr, "check warm:", protoField(warm[n]), "cold:", protoField(cold[n]))
+			fmt.Fprintln(os.Stderr, "check warm:", protoField(warm[n]), "cold:", protoField(cold[n]), "hits", total)
 		}
 		if d := diffOutputs(warm, cold); d != "" {
 			if os.Getenv("C06_DEBUG") != "" {
@@ -808,11 +1071,27 @@ func (w *writersWorld) apply(f []string) string {
 	return "bad-op"
 }
 
-var changeable = []string{"dr-a", "dr-b", "dr-a-nsb", "dr-sel", "vs-a", "vs-b", "vs-c-src", "se-a-ep", "se-b-ep", "se-a-port", "se-a-addr", "se-c-addr",
+var changeable = []string{"dr-a", "dr-b", "dr-a-nsb", "dr-sel", "dr-a-sel", "vs-a", "vs-b", "vs-c-src", "se-a-ep", "se-b-ep", "se-a-port", "se-a-addr", "se-c-addr",
 	"se-dns-ep", "se-dns-res", "se-dns-san", "secret-b", "secret-nsb", "secret-cacert", "dr-hash", "dr-hash", "dr-a-subset", "dr-a-subset", "dr-tls", "configmap", "secret-toggle",
-	"ef-labels", "ef-version", "pa-default", "pa-nsb", "secret"}
-var toggleable = []string{"dr-a", "dr-b", "dr-sel", "vs-a", "vs-c-src", "sc-b", "sc-reg", "ef-labels", "ef-version", "pa-nsb",
-	"vs-new", "dr-new", "ef-new", "vs-new", "dr-new", "dr-hash", "dr-tls"}
+	"ef-labels", "ef-labels", "ef-version", "pa-default", "pa-nsb", "secret"}
+var toggleable = []string{"dr-a", "dr-b", "dr-sel", "dr-a-sel", "dr-a-nsb", "dr-dns", "vs-a", "vs-b", "vs-c-src", "vs-hb-srcns", "sc-b", "sc-reg", "sc-egress", "sc-any", "sc-labelled",
+	"ef-labels", "ef-version", "pa-nsb", "vs-new", "dr-new", "ef-new", "vs-new", "dr-new", "dr-hash", "dr-tls", "se-new", "pa-new", "sc-new", "vs-new-b", "se-new", "pa-new",
+	"pa-sel", "pa-sel", "pa-nsb"}
+
+// DestinationRules of the mesh (delete; check; create; check per rule: an entry generated while the rule was away must
+// not be served once it is back) and configs that do not exist at first (create; check; delete; check)
+var toggleDRs = []string{"dr-a", "dr-b", "dr-a-nsb", "dr-dns", "dr-hash", "dr-tls", "dr-sel", "dr-a-sel", "dr-new"}
+var creatable = []string{"vs-new", "dr-new", "ef-new", "se-new", "pa-new", "pa-sel", "sc-new", "vs-new-b"}
+
+// changes whose effect depends on the proxy: the base proxy variants (mod 4) that see it
+var focusChanges = []struct {
+	cfg   string
+	bases []int
+}{
+	{"ef-labels", []int{3}}, {"ef-version", []int{0, 1, 2}}, {"dr-a", []int{0, 2, 3}}, {"dr-a-subset", []int{0, 2, 3}}, {"dr-hash", []int{0, 2, 3}},
+	{"dr-a-nsb", []int{1}}, {"dr-b", []int{0, 1, 2, 3}}, {"vs-a", []int{0, 1, 2, 3}}, {"vs-b", []int{1}}, {"dr-tls", []int{0, 2, 3}},
+	{"se-a-ep", []int{0, 1, 2, 3}}, {"se-dns-ep", []int{0, 1, 2, 3}}, {"pa-nsb", []int{1}}, {"pa-default", []int{0, 1, 2, 3}},
+}
 
 func genWriters(seed uint64, n int, path string) {
 	out := wire.Create(path)
@@ -821,7 +1100,7 @@ func genWriters(seed uint64, n int, path string) {
 	for c := 0; c < n; c++ {
 		world := 0
 		if c > 0 && r.Chance(1, 2) {
-			world = (r.Intn(1<<keysWorldBits) & r.Intn(1<<keysWorldBits)) &^ (256 | 1<<9 | 1<<10 | 1<<13)
+			world = (r.Intn(1<<keysWorldBits) & r.Intn(1<<keysWorldBits)) &^ (256 | 1<<9 | 1<<10 | 1<<13 | 1<<18)
 			if r.Chance(1, 5) {
 				world |= 1 << 9
 			}
@@ -831,46 +1110,101 @@ func genWriters(seed uint64, n int, path string) {
 			if r.Chance(1, 6) {
 				world |= 1 << 13
 			}
+			if r.Chance(1, 10) {
+				world |= 1 << 18
+			}
 		}
 		out.Line("case", strconv.Itoa(c), strconv.Itoa(world))
 		ids := []string{"x", "y", "z"}[:1+r.Intn(3)]
+		bases := map[string]int{}
+		delta := map[string]bool{}
 		for _, id := range ids {
+			bases[id] = r.Intn(8) // (bases 8..15 are members of a service: the real initConnection replaces their labels)
 			if r.Chance(1, 3) {
-				out.Line("connect", id, strconv.Itoa(r.Intn(4)), "delta")
+				delta[id] = true
+				out.Line("connect", id, strconv.Itoa(bases[id]), "delta")
 			} else {
-				out.Line("connect", id, strconv.Itoa(r.Intn(4)))
+				out.Line("connect", id, strconv.Itoa(bases[id]))
+			}
+		}
+		ver := 0
+		// a connection that sees the change, if there is one
+		idFor := func(want []int) string {
+			for _, id := range ids {
+				for _, b := range want {
+					if bases[id]%4 == b {
+						return id
+					}
+				}
+			}
+			return wire.Pick(r, ids)
+		}
+		// delta: EDS is subscribed, the world moves on, and the FIRST CDS request makes the server push EDS on its own
+		// (DiscoveryServer.forceEDSPush: LastPushContext paired with LastPushTime)
+		for _, id := range ids {
+			if delta[id] && r.Chance(1, 2) {
+				ver++
+				out.Line("request", id, "eds")
+				out.Line("change", wire.Pick(r, []string{"se-a-ep", "se-b-ep", "dr-a-subset", "dr-b", "pa-default"}), strconv.Itoa(ver))
+				out.Line("request", id, "cds")
+				out.Line("check", id)
 			}
 		}
 		nops := 6 + r.Intn(25)
-		ver := 0
 		for i := 0; i < nops; i++ {
 			id := wire.Pick(r, ids)
 			switch x := r.Intn(100); {
-			case x < 22:
+			case x < 20:
 				out.Line("request", id, wire.Pick(r, []string{"cds", "eds", "rds", "sds"}))
-			case x < 38:
+			case x < 33:
 				ver++
 				out.Line("change", wire.Pick(r, changeable), strconv.Itoa(ver))
 				if r.Chance(3, 5) { // the server's own invalidation, before any harness push
 					out.Line("check", id)
 				}
+			case x < 39:
+				// a change the chosen connection sees, with the cache warm for it before and a check after
+				ver++
+				fc := wire.Pick(r, focusChanges)
+				fid := idFor(fc.bases)
+				out.Line("check", fid)
+				out.Line("change", fc.cfg, strconv.Itoa(ver))
+				out.Line("check", fid)
 			case x < 43:
 				out.Line("toggle", wire.Pick(r, toggleable))
 				if r.Chance(3, 5) {
 					out.Line("check", id)
 				}
-			case x < 46:
+			case x < 47:
+				// delete; check; create; check (or create; check; delete; check for a config that does not exist yet)
+				t := wire.Pick(r, toggleDRs)
+				if r.Chance(1, 3) {
+					t = wire.Pick(r, creatable)
+				}
+				out.Line("check", id)
+				out.Line("toggle", t)
+				out.Line("check", id)
+				out.Line("toggle", t)
+				out.Line("check", id)
+			case x < 50:
 				ver++
 				out.Line(wire.Pick(r, []string{"meshchange", "meshchange", "forcepush"}), strconv.Itoa(ver))
-			case x < 54:
+			case x < 53:
+				ver++
+				out.Line("check", id)
+				out.Line("addrupdate", strconv.Itoa(r.Intn(10)))
+				out.Line("check", id)
+			case x < 61:
 				ver++
 				svc := wire.Pick(r, []string{"a", "b", "hb", "nl", "dns"})
-				switch y := r.Intn(10); {
-				case y < 5:
+				switch y := r.Intn(12); {
+				case y < 4:
 					out.Line("epupdate", svc, strconv.Itoa(ver))
-				case y < 7:
+				case y < 6:
+					out.Line("epcache", svc, strconv.Itoa(ver))
+				case y < 8:
 					out.Line("epdelete", svc)
-				case y < 9:
+				case y < 10:
 					out.Line("epnew", svc, strconv.Itoa(ver))
 				default:
 					out.Line(wire.Pick(r, []string{"epdelshard", "epprune"}), svc)
@@ -878,9 +1212,9 @@ func genWriters(seed uint64, n int, path string) {
 				if r.Chance(1, 2) {
 					out.Line("check", id)
 				}
-			case x < 58:
+			case x < 65:
 				out.Line("push", id)
-			case x < 62:
+			case x < 69:
 				// a push overtaken by a newer publish, then a request on the connection
 				ver++
 				out.Line("queue")
@@ -888,9 +1222,9 @@ func genWriters(seed uint64, n int, path string) {
 				out.Line("pushstale", id)
 				out.Line("request", id, wire.Pick(r, []string{"cds", "rds", "eds"}))
 				out.Line("check", id)
-			case x < 70:
+			case x < 75:
 				out.Line("dump", id)
-			case x < 76:
+			case x < 80:
 				out.Line("dumptypes", id)
 			default:
 				out.Line("check", id)
@@ -902,8 +1236,10 @@ func genWriters(seed uint64, n int, path string) {
 	}
 }
 
-// runWritersCase executes one case; crashed reports a panic (e.g. a wall-clock deadline of the fake server).
-func runWritersCase(c [][]string) (outs []string, crashed bool) {
+// runWritersCase executes one case. crashed reports a panic; infra says that every panic came from the test.Failer of
+// the FakeDiscoveryServer (a wall-clock deadline of /repo's test helpers), not from the code under test.
+func runWritersCase(c [][]string) (outs []string, crashed, infra bool) {
+	infra = true
 	var w *writersWorld
 	defer func() {
 		if w != nil {
@@ -916,7 +1252,10 @@ func runWritersCase(c [][]string) (outs []string, crashed bool) {
 				if r := recover(); r != nil {
 					outs = append(outs, "crash")
 					crashed = true
-					fmt.Fprintln(os.Stderr, "c06 writers: panic:", r)
+					if _, ok := r.(fakeFail); !ok {
+						infra = false
+					}
+					fmt.Fprintln(os.Stderr, "c06 writers: panic:", strings.ReplaceAll(fmt.Sprint(r), "\n", " "))
 				}
 			}()
 			if f[0] == "case" && len(f) == 3 {
@@ -932,27 +1271,38 @@ func runWritersCase(c [][]string) (outs []string, crashed bool) {
 			outs = append(outs, w.apply(f))
 		}()
 	}
-	return outs, crashed
+	return outs, crashed, infra
 }
 
 func execWriters(opsPath, outPath string) {
 	all := wire.ReadLines(opsPath)
 	out := wire.Create(outPath)
 	defer out.Close()
-	retried := 0
 	for _, c := range splitCases(all) {
-		outs, crashed := runWritersCase(c)
-		if crashed { // wall-clock deadlines on a loaded machine: one more try before reporting a break
-			retried++
-			outs, _ = runWritersCase(c)
+		outs, crashed, infra := runWritersCase(c)
+		// Only a failure reported by the fake server's OWN test helpers (wall-clock deadlines on a loaded machine) is
+		// tried once more. A panic of the code under test is reported as it is (`crash` where the spec says ok/eq), even
+		// if a second run would not reproduce it.
+		if crashed && infra {
+			wstats["cases-retried-after-fake-server-deadline"]++
+			outs, _, _ = runWritersCase(c)
+		} else if crashed {
+			wstats["cases-with-panic-in-real-code"]++
 		}
 		for _, l := range outs {
 			out.Line(l)
 		}
 		out.Flush()
 	}
-	if retried > 0 {
-		fmt.Fprintf(os.Stderr, "c06 writers: %d case(s) retried after a panic\n", retried)
+	st := wire.Create(outPath + ".stats")
+	defer st.Close()
+	var names []string
+	for k := range wstats {
+		names = append(names, k)
+	}
+	sort.Strings(names)
+	for _, k := range names {
+		st.Line(k, strconv.Itoa(wstats[k]))
 	}
 }
 
@@ -967,7 +1317,7 @@ func oracleWriters(opsPath, outPath string) {
 		func() {
 			defer func() {
 				if r := recover(); r != nil {
-					verdict = "FAIL crash"
+					verdict = "FAIL crash " + strings.ReplaceAll(strings.ReplaceAll(fmt.Sprint(r), "\n", "_"), " ", "_")
 				}
 			}()
 			if len(c[0]) != 3 || c[0][0] != "case" {
@@ -1001,7 +1351,7 @@ func oracleWriters(opsPath, outPath string) {
 func lastWriter(hist []string) string {
 	for i := len(hist) - 1; i >= 0; i-- {
 		switch hist[i] {
-		case "dump", "dumptypes", "request", "push", "pushstale", "epupdate", "epdelete", "epnew", "epdelshard", "epprune", "change", "toggle", "meshchange", "forcepush":
+		case "dump", "dumptypes", "request", "push", "pushstale", "epupdate", "epcache", "addrupdate", "epdelete", "epnew", "epdelshard", "epprune", "change", "toggle", "meshchange", "forcepush":
 			return hist[i]
 		}
 	}
